@@ -650,8 +650,22 @@ func (w *World) decidePG(ev *fakepg.Event) pgDecision {
 	}
 	k := w.pgSeen
 	w.pgSeen++
-	w.pgClasses = append(w.pgClasses, pgClassShort(ev.Class))
-	if sf := w.scripted("pg", k); sf != nil {
+	cls := pgClassShort(ev.Class)
+	w.pgClasses = append(w.pgClasses, cls)
+	if w.pgClassSeen == nil {
+		w.pgClassSeen = map[string]int{}
+	}
+	nth := w.pgClassSeen[cls]
+	w.pgClassSeen[cls]++
+	sf := w.scripted("pg", k)
+	if sf == nil {
+		for i := range w.plan.Script {
+			if c := &w.plan.Script[i]; c.Seam == "pg" && c.Ordinal < 0 && c.Class == cls && c.Nth == nth {
+				sf = c
+			}
+		}
+	}
+	if sf != nil {
 		w.stat("fault_total", 1)
 		w.stat("fault_scripted_pg_"+sf.Kind, 1)
 		w.stat("fault_pg_at:"+pgClassShort(ev.Class), 1)
